@@ -167,6 +167,7 @@ class Oracle:
         self.steps.append({"rid": rid, "dir": direction, "vstmts": [], "engine": engine_name})
         ctx = self.ctx_getter()
         self.tddl_seen = bool(ctx.impl.transactional_ddl)
+        self.steps[-1]["seen"] = [bool(ctx.impl.transactional_ddl), bool(ctx._transaction_per_migration)]
         self.in_body = True
         try:
             for seg in self.bodies[rid][direction]:
@@ -384,6 +385,31 @@ def run_command(cfg, bodies, rev_index, cmd, target, engine_mode, fail, configur
     if orc.tddl_seen is None:
         orc.tddl_seen = bool((configure_kw or {}).get("transactional_ddl"))
     return res, orc
+
+
+TWODB_ENV = '''# hand-written env.py: several databases migrated from ONE env.py run, each with its own settings
+from sqlalchemy import create_engine, pool
+
+from alembic import context
+
+config = context.config
+orc = config.attributes["verif_oracle"]
+
+for name, settings in config.attributes["verif_databases"]:
+    engine = create_engine(config.get_main_option(name + ".url"), poolclass=pool.NullPool)
+    with engine.connect() as connection:
+        context.configure(connection=connection, on_version_apply=orc.on_version_apply, **settings)
+        with context.begin_transaction():
+            context.run_migrations(engine_name=name)
+'''
+
+
+def make_twodb_dir(scratch, hist):
+    """generic script directory whose env.py is TWODB_ENV; revision functions take engine_name"""
+    cfg = make_script_dir(scratch, hist, None, template="multidb", name="twodb")
+    with open(os.path.join(scratch, "twodb", "env.py"), "w") as f:
+        f.write(TWODB_ENV)
+    return cfg
 
 
 class Scratch:
